@@ -3,11 +3,11 @@
 from __future__ import annotations
 
 import ast
-from typing import List, Set
+from typing import List, Set, Tuple
 
 from ..astutil import arg_of, call_name, calls, enclosing_loops, guards, kwarg, last_attr, stmt_key, txt, walk_local
 from ..cfg import CFG
-from ..flow import bound_from
+from ..flow import bound_from, inline_reaching, path_facts
 from ..index import AnalysisError
 from ..kernel import OutsideFragment, decide, parse, rename
 from ..report import Ctx
@@ -31,9 +31,45 @@ UNDECIDED = [
 TRUSTED = ["CPython ast", "asa.cfg", "integer-difference-logic small-model bound (asa.kernel.decide)"]
 
 
+def _fresh_or_fitting(cfg: CFG, func: ast.AST, add: ast.Call, var: str) -> Tuple[bool, str]:
+    """ is the row that receives the area either proven to fit it or freshly created? """
+    recv = add.func.value  # type: ignore[attr-defined]
+    # (i) `row.add(area)` under the fact row.can_fit(area)
+    for expr, truth in path_facts(cfg, add):
+        if truth and isinstance(expr, ast.Call) and last_attr(expr) == "can_fit" and txt(expr.func.value) == txt(recv) \
+                and expr.args and txt(expr.args[0]) == var:  # type: ignore[attr-defined]
+            return True, f"under {txt(expr)}"
+    # (ii) rows[-1] right after rows.append(Row())
+    if isinstance(recv, ast.Subscript) and txt(recv.slice) == "-1":
+        base = txt(recv.value)
+        fresh = [c for c in calls(func) if txt(c.func) == f"{base}.append" and c.args and isinstance(c.args[0], ast.Call)
+                 and call_name(c.args[0]) == "Row" and cfg.dominates(cfg.n(c), cfg.n(add)) and cfg.n(c) != cfg.n(add)]
+        if fresh:
+            return True, "fresh row appended just before"
+    # (iii) a local: every reaching definition is a fresh Row() or the first row that fits
+    if isinstance(recv, ast.Name):
+        verdicts = []
+        for d in cfg.reaching_defs(recv.id, cfg.n(add)):
+            node = cfg.nodes[d].ast if d >= 0 else None
+            value = node.value if isinstance(node, (ast.Assign, ast.AnnAssign)) else None
+            if isinstance(value, ast.Call) and call_name(value) == "Row":
+                verdicts.append("fresh Row()")
+            elif isinstance(value, ast.Call) and call_name(value) == "next" and value.args \
+                    and isinstance(value.args[0], ast.GeneratorExp) and len(value.args[0].generators) == 1 \
+                    and any(isinstance(t, ast.Call) and last_attr(t) == "can_fit" and t.args and txt(t.args[0]) == var
+                            and txt(t.func.value) == txt(value.args[0].generators[0].target)  # type: ignore[attr-defined]
+                            for t in value.args[0].generators[0].ifs) \
+                    and txt(value.args[0].elt) == txt(value.args[0].generators[0].target):
+                verdicts.append("first row that can fit")
+            else:
+                return False, f"`{recv.id}` may be a row not tested with can_fit"
+        return bool(verdicts), "; ".join(verdicts)
+    return False, f"receiver {txt(recv)} not recognised"
+
+
 def r19_1(ctx: Ctx) -> None:
     qual = "pack"
-    func = ctx.fn(AP, qual)
+    func = ctx.fn(AP, qual, inline=True)
     cfg = CFG(func)
     loops = [n for n in func.body if isinstance(n, ast.For)]
     if len(loops) != 1:
@@ -52,18 +88,30 @@ def r19_1(ctx: Ctx) -> None:
     ctx.ob("R19.1", AP, outer, qual, "at most once", bool(adds) and not twice,
            "after an area has been added to a row no second add is reachable within the same iteration "
            "(the first fitting row ends the search)", form=f"{len(adds)} add sites")
-    fits = [n for n in walk_local(outer) if isinstance(n, ast.If) and "can_fit" in txt(n.test)]
-    ok = bool(fits) and any(isinstance(s, ast.Break) for s in fits[0].body)
-    ctx.ob("R19.1", AP, fits[0] if fits else outer, qual, "fit test guards the add", ok,
-           "an area is added to an existing row only if that row can fit it", form=txt(fits[0].test) if fits else "")
+    verdicts = [_fresh_or_fitting(cfg, func, a, var) for a in adds]
+    ctx.ob("R19.1", AP, adds[0] if adds else outer, qual, "fit test guards the add", bool(adds) and all(v for v, _ in verdicts),
+           "an area is added to an existing row only if that row can fit it (or to a freshly created row)",
+           form="; ".join(w for _, w in verdicts))
     qual = "build_area_rows"
     func = ctx.fn(AP, qual)
-    packs = {txt(n.targets[0]): txt(n.value.args[0]) for n in walk_local(func)
-             if isinstance(n, ast.Assign) and isinstance(n.value, ast.Call) and call_name(n.value) == "pack"}
+    fcfg = CFG(func)
+    packs = {}
+    for n in walk_local(func):
+        if isinstance(n, ast.Assign) and isinstance(n.value, ast.Call) and call_name(n.value) == "pack" and n.value.args:
+            resolved = inline_reaching(fcfg, n, n.value.args[0])
+            text = txt(resolved)
+            if isinstance(n.value.args[0], ast.Name):
+                name = n.value.args[0].id
+                parts = [txt(v) for v in bound_from(func, name)]
+                parts += [f"for {txt(lp.target)} in {txt(lp.iter)}" for lp in walk_local(func) if isinstance(lp, ast.For)
+                          and any(isinstance(c, ast.Call) and txt(c.func) in (f"{name}.append", f"{name}.extend") for c in ast.walk(lp))]
+                text = "; ".join(parts) or text
+            packs[txt(n.targets[0])] = text
     sources = sorted(packs.values())
-    ok = sources == sorted(["region.subregions", "candidates_to_include", "region.get_unique_protoclusters()"])
+    ok = len(packs) == 3 and "region.subregions" in sources and "region.get_unique_protoclusters()" in sources and \
+        any("region.candidate_clusters" in x for x in sources)
     ctx.ob("R19.1", AP, func, qual, "three collections packed", ok,
-           "subregions, candidate clusters and the unique protoclusters are each packed into rows", form=str(packs))
+           "subregions, candidate clusters and the unique protoclusters are each packed into rows", form=str(packs)[:200])
     iterated: Set[str] = set()
     for loop in [n for n in walk_local(func) if isinstance(n, ast.For)]:
         names = {n.id for n in ast.walk(loop.iter) if isinstance(n, ast.Name)}
@@ -75,20 +123,30 @@ def r19_1(ctx: Ctx) -> None:
            "every feature of every packed row is converted into an area", form=f"iterated={sorted(iterated)} packed={sorted(packs)}")
     helper = ctx.fn(AP, "build_area_rows.add_area_from_feature")
     cfg = CFG(helper)
+    area_names = {txt(n.targets[0]) for n in walk_local(helper) if isinstance(n, ast.Assign) and isinstance(n.value, ast.Call)
+                  and last_attr(n.value) == "from_feature"}
+    extra_names = {txt(n.targets[0]) for n in walk_local(helper) if isinstance(n, ast.Assign) and isinstance(n.value, ast.Call)
+                   and call_name(n.value) == "adjust_cross_origin_area"}
     appends = [c for c in calls(helper) if txt(c.func) == "converted.append"]
-    final = [a for a in appends if not guards(a, stop=helper)]
-    ok = len(final) == 1 and cfg.postdominates(cfg.n(final[0]), cfg.entry) and txt(final[0].args[0]) == "new"
+    final = [a for a in appends if cfg.postdominates(cfg.n(a), cfg.entry)]
+    ok = len(final) == 1 and txt(final[0].args[0]) in area_names
     ctx.ob("R19.1", AP, final[0] if final else helper, "build_area_rows.add_area_from_feature", "area appended once", ok,
            "every feature contributes its area exactly once, unconditionally, at the end of the helper", form="")
     splits = [a for a in appends if a not in final]
-    ok = len(splits) <= 1 and all(any(pol and txt(t) == "extra" for t, pol in guards(a, stop=helper)) for a in splits) and \
-        all(any(isinstance(s, ast.Assign) and txt(s.targets[0]) == "new" and txt(s.value) == "extra"
-                for s in getattr(getattr(a, "_parent", None), "_parent", helper).body) for a in splits)
+    ok = len(splits) <= 1
+    for a in splits:
+        guarded = any(truth and txt(e) in extra_names for e, truth in path_facts(cfg, a))
+        block = getattr(getattr(a, "_parent", None), "_parent", helper)
+        takes_over = any(isinstance(st, ast.Assign) and txt(st.targets[0]) in area_names and txt(st.value) in extra_names
+                         for st in getattr(block, "body", []))
+        ok = ok and guarded and takes_over and txt(a.args[0]) in area_names
     ctx.ob("R19.1", AP, splits[0] if splits else helper, "build_area_rows.add_area_from_feature", "split halves once each", ok,
            "when an area had to be split, the first half is appended and the second half takes the place of the area for the "
            "final append (two linked halves, once each)", form="")
     ret = [r for r in walk_local(func) if isinstance(r, ast.Return)]
-    ok = len(ret) == 1 and txt(ret[0].value) == "[area.to_minimal_json() for area in converted]"
+    ok = len(ret) == 1 and isinstance(ret[0].value, ast.ListComp) and len(ret[0].value.generators) == 1 \
+        and txt(ret[0].value.generators[0].iter) == "converted" and not ret[0].value.generators[0].ifs \
+        and txt(ret[0].value.elt) == f"{txt(ret[0].value.generators[0].target)}.to_minimal_json()"
     ctx.ob("R19.1", AP, func, qual, "all areas returned", ok, "every converted area is emitted", form="")
 
 
@@ -118,33 +176,51 @@ def r19_2(ctx: Ctx) -> None:
 
 def r19_3(ctx: Ctx) -> None:
     helper = ctx.fn(AP, "build_area_rows.add_area_from_feature")
-    offs = [c for c in calls(helper) if last_attr(c) == "offset" and txt(c.func.value) == "new"]  # type: ignore
+    func = ctx.fn(AP, "build_area_rows")
+    fcfg = CFG(func)
+    hcfg = CFG(helper)
+    feature = helper.args.args[0].arg
+    area_names = {txt(n.targets[0]) for n in walk_local(helper) if isinstance(n, ast.Assign) and isinstance(n.value, ast.Call)
+                  and last_attr(n.value) == "from_feature"}
+    offs = [c for c in calls(helper) if last_attr(c) == "offset" and txt(c.func.value) in area_names]  # type: ignore
     if not offs:
         raise AnalysisError("add_area_from_feature: shift of post-origin areas not found")
-    from ..flow import inline_reaching, path_facts
-    hcfg = CFG(helper)
+    # the flag that enables origin handling: a local of the outer function whose value mentions the `circular` parameter
+    enable_names = {t.id for n in walk_local(func) if isinstance(n, ast.Assign) for t in n.targets if isinstance(t, ast.Name)
+                    and any(isinstance(x, ast.Name) and x.id == "circular" for x in ast.walk(n.value))}
+
+    def classify(expr: ast.AST) -> str:
+        if isinstance(expr, ast.Name) and expr.id in enable_names:
+            return "enabled"
+        resolved = txt(inline_reaching(hcfg, expr, expr))
+        if resolved == "region.crosses_origin()":
+            return "region spans"
+        if f"{feature}.crosses_origin()" in resolved:
+            return "area spans"
+        return "placement"
     for call in offs:
-        conj: List[ast.AST] = []
+        classes: dict = {}
         for expr, truth in path_facts(hcfg, call):
-            conj.append(expr if truth else ast.UnaryOp(op=ast.Not(), operand=expr))
-        texts = [txt(c) for c in conj]
+            kind = classify(expr)
+            classes.setdefault(kind, []).append(expr if truth else ast.UnaryOp(op=ast.Not(), operand=expr))
+            if kind in ("enabled", "region spans") and not truth:
+                classes.setdefault("negated", []).append(expr)
         ctx.ob("R19.3", AP, call, "build_area_rows.add_area_from_feature", "shift amount", txt(call.args[0]) == "record_length",
                "positions after the origin are shifted by the record length", form=txt(call))
         ctx.ob("R19.3", AP, call, "build_area_rows.add_area_from_feature", "only for origin-spanning regions",
-               "region.crosses_origin()" in texts and "extend_over_origin" in texts,
-               "the shift applies only when the record is circular and the region spans the origin", form=" and ".join(texts))
-        # the arm for areas that themselves span the origin is handled separately (its negation holds here)
-        placement = [c for c in conj if txt(c) not in ("region.crosses_origin()", "extend_over_origin")
-                     and "feature.crosses_origin()" not in txt(c)]
+               "enabled" in classes and "region spans" in classes and "negated" not in classes,
+               "the shift applies only when the record is circular and the region spans the origin",
+               form=" and ".join(txt(e) for group in classes.values() for e in group))
+        placement = classes.get("placement", [])
         ok = False
         form = " and ".join(txt(p) for p in placement)
         if len(placement) == 1 and isinstance(placement[0], ast.Call) and last_attr(placement[0]) == "is_contained_by":
-            arg = txt(placement[0].args[0])
-            ok = txt(placement[0].func.value) == "feature" and arg in ("region.location.parts[-1]", "region.location.parts[1]")  # type: ignore
+            arg = txt(inline_reaching(hcfg, call, placement[0].args[0]))
+            ok = txt(placement[0].func.value) == feature and arg in ("region.location.parts[-1]", "region.location.parts[1]")  # type: ignore
         elif placement:
             expr = placement[0] if len(placement) == 1 else ast.BoolOp(op=ast.And(), values=placement)
-            mapping = {"feature.start": "f_s", "feature.end": "f_e", "region.end": "r_e", "region.start": "r_s",
-                       "feature.location.start": "f_s", "feature.location.end": "f_e"}
+            mapping = {f"{feature}.start": "f_s", f"{feature}.end": "f_e", "region.end": "r_e", "region.start": "r_s",
+                       f"{feature}.location.start": "f_s", f"{feature}.location.end": "f_e"}
             try:
                 # region spans the origin: r_e < r_s; a non-spanning feature inside it lies either in [r_s, L) or in [0, r_e]
                 pre = parse("f_s < f_e and r_e < r_s and (f_e <= r_e or f_s >= r_s)")
@@ -156,14 +232,24 @@ def r19_3(ctx: Ctx) -> None:
         ctx.ob("R19.3", AP, call, "build_area_rows.add_area_from_feature", "placement test", ok,
                "an area is shifted exactly when it lies in the post-origin part of the region (containment in the region's last "
                "part, or a comparison equivalent to it - an area ending exactly at the region's end is post-origin too)", form=form)
-    func = ctx.fn(AP, "build_area_rows")
-    vals = [txt(v) for v in bound_from(func, "extend_over_origin")]
-    ok = vals == ["circular and (region.crosses_origin() or (region.start == 0 and region.end == record_length))"]
+    from ..flow import nnf
+    want = nnf(parse("circular and (region.crosses_origin() or (region.start == 0 and region.end == record_length))"))
+    got = []
+    for name in sorted(enable_names):
+        for node in walk_local(func):
+            if isinstance(node, ast.Assign) and any(isinstance(t, ast.Name) and t.id == name for t in node.targets):
+                got.append(nnf(inline_reaching(fcfg, node, node.value)))
+    ok = len(got) == 1 and got[0] == want
     ctx.ob("R19.3", AP, func, "build_area_rows", "origin handling enabled", ok,
-           "origin handling is enabled for circular records when the region spans the origin or covers the whole record", form=str(vals))
+           "origin handling is enabled for circular records when the region spans the origin or covers the whole record",
+           form=str(got)[:200])
     adj = [c for c in calls(helper) if call_name(c) == "adjust_cross_origin_area"]
-    ok = len(adj) == 1 and [txt(a) for a in adj[0].args] == ["new", "feature", "region.crosses_origin()", "record_length"] and \
-        any(truth and "feature.crosses_origin()" in txt(expr) for expr, truth in path_facts(hcfg, adj[0]))
+    ok = len(adj) == 1 and len(adj[0].args) == 4
+    if ok:
+        args = adj[0].args
+        ok = txt(args[0]) in area_names and txt(args[1]) == feature and \
+            txt(inline_reaching(hcfg, adj[0], args[2])) == "region.crosses_origin()" and txt(args[3]) == "record_length" and \
+            any(truth and f"{feature}.crosses_origin()" in txt(expr) for expr, truth in path_facts(hcfg, adj[0]))
     ctx.ob("R19.3", AP, adj[0] if adj else helper, "build_area_rows.add_area_from_feature", "spanning areas adjusted", ok,
            "an area that itself spans the origin goes through the dedicated adjustment with the record length", form="")
 
@@ -188,30 +274,38 @@ def r19_4(ctx: Ctx) -> None:
             continue
         param = target.args.args[0].arg
         cfg = CFG(target)
-        for ret in [n for n in walk_local(target) if isinstance(n, ast.Return) and n.value is not None]:
-            first = ret.value.elts[0] if isinstance(ret.value, ast.Tuple) and ret.value.elts else ret.value
-            if not (isinstance(first, ast.BinOp) and isinstance(first.op, ast.Add)):
-                continue
-            sides = [first.left, first.right]
-            mine = [x for x in sides if dotted(x) and dotted(x).split(".")[0] == param]
-            if len(mine) != 1:
-                continue
+        from ..flow import inline_reaching
+
+        def mine(expr: ast.AST, at: ast.AST) -> str:
+            d = dotted(inline_reaching(cfg, at, expr))
+            return d if d and d.split(".")[0] == param else ""
+        shifts = []   # (statement, shifted coordinate)
+        for node in walk_local(target):
+            if isinstance(node, ast.AugAssign) and isinstance(node.op, ast.Add) and isinstance(node.target, ast.Name):
+                load = ast.Name(id=node.target.id, ctx=ast.Load())
+                coordinate = mine(load, node)
+                if coordinate:
+                    shifts.append((node, coordinate))
+            elif isinstance(node, ast.BinOp) and isinstance(node.op, ast.Add):
+                sides = [mine(node.left, node), mine(node.right, node)]
+                if sum(1 for x in sides if x) == 1:
+                    shifts.append((node, sides[0] or sides[1]))
+        for node, accessor in shifts:
             count += 1
-            accessor = dotted(mine[0])
             tested = set()
-            for expr, truth in path_facts(cfg, ret):
+            for expr, truth in path_facts(cfg, node):
                 for sub in ast.walk(expr):
                     if isinstance(sub, ast.Compare):
                         for side in [sub.left] + list(sub.comparators):
-                            d = dotted(side)
-                            if d and d.split(".")[0] == param:
+                            d = mine(side, expr)
+                            if d:
                                 tested.add(d)
-            ctx.ob("R19.4", REGION, ret, f"{qual}.{target.name}", f"shifted coordinate {accessor}", tested == {accessor},
+            ctx.ob("R19.4", REGION, node, f"{qual}.{target.name}", f"shifted coordinate {accessor}", tested == {accessor},
                    "a member of a spanning region is moved past the record length exactly when the coordinate it is sorted by "
                    "lies after the origin: the coordinate tested is the coordinate shifted (testing another one mis-places "
                    "members that straddle the threshold, and the drawing order no longer equals the genome order)",
                    detail="" if tested == {accessor} else f"tests {sorted(tested)} but shifts {accessor}",
-                   form=f"return {txt(ret.value)[:80]} under tests on {sorted(tested)}")
+                   form=f"{txt(node)[:80]} under tests on {sorted(tested)}")
     if count < 1:
         raise AnalysisError(f"{qual}: the shifting sort key for spanning regions was not found")
 
